@@ -2,15 +2,17 @@
 # usage: selftest/try_seeded.sh <property> <dir with patch.diff [demo.py]> [tier]
 # Applies the seeded change to /repo, runs the property's check, and ALWAYS reverts /repo afterwards.
 P=$1; D=$2; T=${3:-quick}
+# /repo is shared: hold the exclusive repo lock while it is mutated (checks take it shared)
+exec 9>/var/tmp/xv-repo.lock; flock 9; export XV_HOLDS_REPO_LOCK=1
 cd /repo || exit 2
 git diff --quiet || { echo "/repo has uncommitted changes; refusing"; exit 2; }
 git apply "$D/patch.diff" || { echo "patch does not apply"; exit 2; }
 trap 'git -C /repo checkout -- . ; git -C /repo clean -fdq' EXIT INT TERM
 if [ -f "$D/demo.py" ]; then (cd /repo && timeout 300 /venv/bin/python "$D/demo.py" >/dev/null 2>&1; echo "demo on mutated tree: exit $?"); fi
 cp /verif/evidence/$P.json /var/tmp/try_seeded_evidence_$P.json 2>/dev/null
-cd /verif && ./check "$P" --tier "$T" > /var/tmp/try_seeded.out 2>&1
+cd /verif && ./check "$P" --tier "$T" > /var/tmp/try_seeded_$P.out 2>&1
 rc=$?
 # the evidence file committed in /verif must come from the UNCHANGED tree: put the clean one back
 cp /var/tmp/try_seeded_evidence_$P.json /verif/evidence/$P.json 2>/dev/null
-cut -c1-300 /var/tmp/try_seeded.out
+cut -c1-300 /var/tmp/try_seeded_$P.out
 echo "check exit: $rc"
